@@ -131,8 +131,8 @@ def evaluate(st, scn):
     idmode = scn.get("ids", "distinct")
     v = V(gen.crec(vs[0], "vec"))
     if idmode == "decorated":
-        v = V(gen.crec(vs[0], "vec", features=gen.decorations(len(vs[0]))))
-        ents = [M(gen.crec(m[0], "mod%d" % i, features=gen.decorations(len(m[0])))) for i, m in enumerate(ms)]
+        v = V(gen.contained(vs[0], "annotated", "vec"))
+        ents = [M(gen.contained(m[0], "annotated", "mod%d" % i)) for i, m in enumerate(ms)]
     elif idmode == "distinct":
         ents = [M(gen.crec(m[0], "mod%d" % i)) for i, m in enumerate(ms)]
     elif idmode == "same":
